@@ -6,7 +6,7 @@ cd "$(dirname "$0")"
 mkdir -p .build evidence replays
 cd harness
 go build -o ../.build/vcheck ./cmd/vcheck
-for p in $(ls -d eng*/ 2>/dev/null); do
+for p in enga engb engc; do
   go test -c -tags verif -vet=off -o ../.build/warm.test ./$p >/dev/null 2>&1 || true
 done
 rm -f ../.build/warm.test
